@@ -379,11 +379,37 @@ func runCase(c *vrun.Case, s scenario) vrun.Result {
 		_, sh, ah, _ := rec.Snapshot()
 		hooksAtCloseReturn = len(sh) + len(ah)
 	}
-	select {
-	case <-rec.ClosedCh:
-	case <-time.After(30 * time.Second):
-		return vrun.Inconcl("closed notification not delivered within 30 s after a successful Close")
-	}
+	noClosedEvent := false
+	func() {
+		// Close returns nil only after the broker's close response, so the broker has the close request by now. If it
+		// has not (2 s later), there is no point in waiting 30 s for the notification: the conservation oracle below
+		// reports the missing close request.
+		deadline := time.After(30 * time.Second)
+		tick := time.NewTicker(100 * time.Millisecond)
+		defer tick.Stop()
+		t0 := time.Now()
+		for {
+			select {
+			case <-rec.ClosedCh:
+				return
+			case <-deadline:
+				noClosedEvent = true
+				return
+			case <-tick.C:
+				if time.Since(t0) > 2*time.Second {
+					if ups := w.B.Ups(); len(ups) == 1 {
+						w.B.Lock()
+						missing := ups[0].CloseReq == nil
+						w.B.Unlock()
+						if missing {
+							noClosedEvent = true
+							return
+						}
+					}
+				}
+			}
+		}
+	}()
 	// let the broker drain anything still queued on the link
 	time.Sleep(2 * time.Millisecond)
 	writes, send, acks, closed := rec.Snapshot()
@@ -416,6 +442,9 @@ func runCase(c *vrun.Case, s scenario) vrun.Result {
 	if f := uplib.ChunkAfterClose(ledger, &us); f != nil {
 		f.Key += suffix
 		return mk(f)
+	}
+	if noClosedEvent {
+		return vrun.Inconcl("closed notification not delivered within 30 s after a successful Close")
 	}
 	if len(closed) != 1 {
 		return vrun.Violation("closed notification delivered a number of times other than once", "closed-event-count", map[string]any{"times": len(closed)})
